@@ -1,4 +1,143 @@
-import Model.Aes
-import Spec.Aes
+/-
+  C02, AES part — AES-128/192/256 of crysp/aes.py (Model.Aes, tables regenerated from the source) encrypt and decrypt
+  exactly as FIPS 197 (Spec.Aes), sizes the standard does not define are rejected, and the exposed `gmul` is
+  multiplication in GF(2^8) = GF(2)[x]/(x^8+x^4+x^3+x+1) for every pair of bytes.
+  ONLY property theorems and non-vacuity / known-answer examples; helper lemmas are in Proofs/Lemmas/Aes*.lean and
+  the 65 536-pair product table in Proofs/C02_Aes/Gmul*.lean.
+-/
+import Proofs.Lemmas.AesApi
+import Proofs.C02_Aes.GmulAll
 namespace Proofs.C02_Aes
+open Model Proofs.Aes
+
+/-! ### the standard's own objects behave as the standard says (sanity of Spec.Aes, kernel-checked) -/
+
+/-- `gfinv` is the multiplicative inverse in GF(2^8) (every non-zero element), and 0 ↦ 0 -/
+theorem gfinv_is_inverse : ∀ b < 256, Spec.Aes.gfmul b (Spec.Aes.gfinv b) = (if b = 0 then 0 else 1) := by decide +kernel
+
+/-- `xtime` is multiplication by x = {02} -/
+theorem xtime_is_mul_x : ∀ b < 256, Spec.Aes.xtime b = Spec.Aes.gfmul b 2 ∧ Spec.Aes.xtime b = Spec.Aes.gfmul 2 b := by decide +kernel
+
+/-- {01} is the unit and products of bytes are bytes (checked on the row/column of 1 and the extreme element) -/
+theorem gfmul_one : ∀ b < 256, Spec.Aes.gfmul b 1 = b ∧ Spec.Aes.gfmul 1 b = b ∧ Spec.Aes.gfmul b 255 < 256 := by decide +kernel
+
+/-- the S-box of §5.1.1 and the inverse S-box of §5.3.2 are mutually inverse -/
+theorem spec_invSbox_sbox : ∀ b < 256, Spec.Aes.invSbox (Spec.Aes.sbox b) = b ∧ Spec.Aes.sbox (Spec.Aes.invSbox b) = b := by
+  decide +kernel
+
+/-! ### tables of the source = the standard (complete finite domains, decided by the kernel) -/
+
+/-- `AES.sboxtable` is the FIPS 197 S-box (all 256 entries) -/
+theorem sbox_eq_spec : ∀ b < 256, Aes.sbox b = Spec.Aes.sbox b := sbox_spec
+
+/-- `AES.sboxinvtable` is the FIPS 197 inverse S-box (all 256 entries) -/
+theorem sboxinv_eq_spec : ∀ b < 256, Aes.sboxInv b = Spec.Aes.invSbox b := sboxInv_spec
+
+/-- the exposed `gmul` (Exp/Log tables of the source) is multiplication modulo x^8+x^4+x^3+x+1 on all 65 536 byte pairs;
+    in particular it never raises (`gmul(a,0) = 0` after the fix) -/
+theorem gmul_eq_gfmul : ∀ a b, a < 256 → b < 256 → Aes.gmul a b = .ok (Spec.Aes.gfmul a b) :=
+  fun _ _ ha hb => Gmul.gmul_table ha hb
+
+/-- `Rcon[1..10]` (the only entries any key size reads) are x^(j-1) -/
+theorem rcon_eq_spec : ∀ j, 1 ≤ j → j ≤ 10 → Model.Gen.Aes.rcon.getD j 0 % 256 = Spec.Aes.xpow (j - 1) :=
+  fun j h1 h2 => rcon_spec j (by omega) (by omega)
+
+/-- the index permutation probed from `ShiftRows` is s'_{r,c} = s_{r,(c+r) mod 4} in the column-major layout -/
+theorem shiftRows_idx_eq_spec :
+    Model.Gen.Aes.shiftRowsIdx = (List.range 16).map fun i => i % 4 + 4 * ((i / 4 + i % 4) % 4) := by decide +kernel
+
+theorem invShiftRows_idx_eq_spec :
+    Model.Gen.Aes.invShiftRowsIdx = (List.range 16).map fun i => i % 4 + 4 * ((i / 4 + 4 - i % 4) % 4) := by decide +kernel
+
+/-! ### component refinements (every 16-byte state / every admissible key) -/
+
+theorem subBytes_refines (s : List Nat) (h : IsBytes s) :
+    Aes.SboxE s = .ok (Spec.Aes.subBytes s) ∧ Aes.subBytes s = Spec.Aes.subBytes s := by
+  rw [SboxE_ok h, subBytes_spec h]; exact ⟨rfl, rfl⟩
+
+theorem invSubBytes_refines (s : List Nat) (h : IsBytes s) :
+    Aes.SboxInvE s = .ok (Spec.Aes.invSubBytes s) ∧ Aes.invSubBytes s = Spec.Aes.invSubBytes s := by
+  rw [SboxInvE_ok h, invSubBytes_spec h]; exact ⟨rfl, rfl⟩
+
+theorem shiftRows_refines (s : List Nat) (h : s.length = 16) : Aes.ShiftRowsE s = .ok (Spec.Aes.shiftRows s) := by
+  rw [ShiftRowsE_ok h, shiftRows_spec h]
+
+theorem invShiftRows_refines (s : List Nat) (h : s.length = 16) : Aes.InvShiftRowsE s = .ok (Spec.Aes.invShiftRows s) := by
+  rw [InvShiftRowsE_ok h, invShiftRows_spec h]
+
+theorem mixColumns_refines (s : List Nat) (h : St s) : Aes.MixColumnsE s = .ok (Spec.Aes.mixColumns s) := by
+  rw [MixColumnsE_ok h.1, mixColumns_spec h]
+
+theorem invMixColumns_refines (s : List Nat) (h : St s) : Aes.InvMixColumnsE s = .ok (Spec.Aes.invMixColumns s) := by
+  rw [InvMixColumnsE_ok h.1, invMixColumns_spec h]
+
+theorem addRoundKey_refines (s : List Nat) (w : List (List Nat)) (r : Nat) (hs : St s) (hk : St (Aes.roundKey w r)) :
+    Aes.addRoundKey s (Aes.roundKey w r) = Spec.Aes.addRoundKey s w r := addRoundKey_spec hs hk
+
+/-- key expansion for Nk = 4, 6, 8: every key of 16, 24 or 32 bytes -/
+theorem keySchedule_refines (K : List Nat) (h : KeyOk K) : Aes.keyscheduleE K = .ok (Spec.Aes.keyExpansion K) := by
+  rw [keyscheduleE_ok h.1, (keySchedule_spec_wf h).1]
+
+/-! ### end to end -/
+
+/-- AES-128/192/256 encryption of crysp = FIPS 197 Cipher, for every key and every block -/
+theorem enc_refines (K B : List Nat) (hK : KeyOk K) (hB : St B) : Aes.enc K B = .ok (Spec.Aes.cipher K B) := by
+  rw [enc_ok hK.1 hB.1]
+  unfold Aes.encCore Spec.Aes.cipher
+  have hNr : 1 ≤ K.length / 4 + 6 := by omega
+  rw [(encW_spec hNr (keysOk_of_key hK) hB).1, (keySchedule_spec_wf hK).1]
+
+/-- AES-128/192/256 decryption of crysp = FIPS 197 InvCipher, for every key and every block -/
+theorem dec_refines (K B : List Nat) (hK : KeyOk K) (hB : St B) : Aes.dec K B = .ok (Spec.Aes.invCipher K B) := by
+  rw [dec_ok hK.1 hB.1]
+  unfold Aes.decCore Spec.Aes.invCipher
+  have hNr : 1 ≤ K.length / 4 + 6 := by omega
+  rw [(decW_spec hNr (keysOk_of_key hK) hB).1, (keySchedule_spec_wf hK).1]
+
+/-- keys of a size FIPS 197 does not define are rejected by the constructor, hence by enc, dec and keyschedule -/
+theorem key_size_rejected (K B : List Nat) (h : ¬ (K.length = 16 ∨ K.length = 24 ∨ K.length = 32)) :
+    (∃ e, Aes.enc K B = .error e) ∧ (∃ e, Aes.dec K B = .error e) ∧ (∃ e, Aes.keyscheduleE K = .error e) :=
+  ⟨⟨_, enc_err_key h⟩, ⟨_, dec_err_key h⟩, ⟨_, keyscheduleE_err h⟩⟩
+
+/-- blocks that are not 16 bytes are rejected (never silently processed), whatever the key -/
+theorem block_size_rejected (K B : List Nat) (h : B.length ≠ 16) :
+    (∃ e, Aes.enc K B = .error e) ∧ (∃ e, Aes.dec K B = .error e) :=
+  ⟨enc_err_block h, dec_err_block h⟩
+
+/-! ### non-vacuity and known answers: FIPS 197 Appendix C.1–C.3 and Appendix B through Spec.Aes, in the kernel -/
+
+def k128 : List Nat := [0x00,0x01,0x02,0x03,0x04,0x05,0x06,0x07,0x08,0x09,0x0a,0x0b,0x0c,0x0d,0x0e,0x0f]
+def k192 : List Nat := k128 ++ [0x10,0x11,0x12,0x13,0x14,0x15,0x16,0x17]
+def k256 : List Nat := k192 ++ [0x18,0x19,0x1a,0x1b,0x1c,0x1d,0x1e,0x1f]
+def ptC : List Nat := [0x00,0x11,0x22,0x33,0x44,0x55,0x66,0x77,0x88,0x99,0xaa,0xbb,0xcc,0xdd,0xee,0xff]
+def ct128 : List Nat := [0x69,0xc4,0xe0,0xd8,0x6a,0x7b,0x04,0x30,0xd8,0xcd,0xb7,0x80,0x70,0xb4,0xc5,0x5a]
+def ct192 : List Nat := [0xdd,0xa9,0x7c,0xa4,0x86,0x4c,0xdf,0xe0,0x6e,0xaf,0x70,0xa0,0xec,0x0d,0x71,0x91]
+def ct256 : List Nat := [0x8e,0xa2,0xb7,0xca,0x51,0x67,0x45,0xbf,0xea,0xfc,0x49,0x90,0x4b,0x49,0x60,0x89]
+def kB : List Nat := [0x2b,0x7e,0x15,0x16,0x28,0xae,0xd2,0xa6,0xab,0xf7,0x15,0x88,0x09,0xcf,0x4f,0x3c]
+def ptB : List Nat := [0x32,0x43,0xf6,0xa8,0x88,0x5a,0x30,0x8d,0x31,0x31,0x98,0xa2,0xe0,0x37,0x07,0x34]
+def ctB : List Nat := [0x39,0x25,0x84,0x1d,0x02,0xdc,0x09,0xfb,0xdc,0x11,0x85,0x97,0x19,0x6a,0x0b,0x32]
+
+set_option maxRecDepth 100000 in
+example : Spec.Aes.cipher k128 ptC = ct128 ∧ Spec.Aes.invCipher k128 ct128 = ptC := by decide +kernel
+set_option maxRecDepth 100000 in
+example : Spec.Aes.cipher k192 ptC = ct192 ∧ Spec.Aes.invCipher k192 ct192 = ptC := by decide +kernel
+set_option maxRecDepth 100000 in
+example : Spec.Aes.cipher k256 ptC = ct256 ∧ Spec.Aes.invCipher k256 ct256 = ptC := by decide +kernel
+set_option maxRecDepth 100000 in
+example : Spec.Aes.cipher kB ptB = ctB ∧ Spec.Aes.invCipher kB ctB = ptB := by decide +kernel
+/-- §4.2 example {57}•{83} = {c1}, §4.2.1 {57}•{13} = {fe}, §5.1.1 S-box({53}) = {ed}, Rcon[10] = {36} -/
+example : Spec.Aes.gfmul 0x57 0x83 = 0xc1 ∧ Spec.Aes.gfmul 0x57 0x13 = 0xfe ∧ Spec.Aes.sbox 0x53 = 0xed
+    ∧ Spec.Aes.rcon 10 = [0x36, 0, 0, 0] := by decide +kernel
+/-- the hypotheses of the refinement theorems are inhabited by the FIPS vectors of all three key sizes -/
+theorem kat_inputs_ok : KeyOk k128 ∧ KeyOk k192 ∧ KeyOk k256 ∧ St ptC := by
+  refine ⟨⟨by decide, ?_⟩, ⟨by decide, ?_⟩, ⟨by decide, ?_⟩, ⟨by decide, ?_⟩⟩ <;>
+    (unfold IsBytes; decide +kernel)
+-- and so the model itself reproduces FIPS 197 C.3
+set_option maxRecDepth 100000 in
+example : Aes.enc k256 ptC = .ok ct256 := by
+  rw [enc_refines k256 ptC kat_inputs_ok.2.2.1 kat_inputs_ok.2.2.2]
+  exact congrArg Except.ok (by decide +kernel)
+/-- size rejection is not vacuous -/
+example : ¬ ([0, 1, 2] : List Nat).length = 16 := by decide
+
 end Proofs.C02_Aes
